@@ -258,8 +258,11 @@ fn judge_a(case: &Case, l_: &mut Local) {
                         l_.check("the analysis terminates within its iteration budget", "", false, mk, || format!("{}: {}", tag, e));
                     } else if panic {
                         l_.check("the analysis returns without panicking", "", false, mk, || format!("{}: {}", tag, e));
-                    } else if !sharp {
-                        // every closed-section edge method applies to an envelope section with rounded ends
+                    } else if !sharp && case.le != "ransac" && case.te != "ransac" {
+                        // every deterministic closed-section edge method applies to an envelope section with rounded
+                        // ends; the RANSAC locator only accepts candidate circles *smaller* than the last station,
+                        // which on an envelope section (whose end cap is the last station's circle) is decided by
+                        // rounding, so its acceptance is not demanded
                         l_.check("an envelope section with rounded ends is analysed by every closed-section edge method", "", false, mk, || format!("{}: {}", tag, e));
                     } else {
                         l_.bucket(&format!("rejection reason: {}", e.chars().take(90).collect::<String>()));
@@ -300,7 +303,12 @@ fn judge_a(case: &Case, l_: &mut Local) {
                     let tm = g.find_tmax().radius();
                     l_.check("maximum thickness is recovered", "", (tm - rmax).abs() <= 1.0 * (tau + h), mk, || format!("{}: {} vs {}", tag, tm, rmax));
                     if let Ok(d) = g.get_thickness_max() {
-                        l_.check("thickness gauge at the maximum equals twice the largest radius", "", (d.value().abs() - 2.0 * tm).abs() <= 4.0 * tau, mk, || format!("{}: {} vs {}", tag, d.value(), 2.0 * tm));
+                        // when the largest station is one manufactured by an edge method (first / last station of
+                        // the constant-radius and RANSAC locators) its radius is only claimed to 20 tau
+                        let tmax_c = g.find_tmax().center();
+                        let at_forged_end = (forged_loc(&case.le) && d2(&tmax_c, &g.stations[0].center()) == 0.0) || (forged_loc(&case.te) && d2(&tmax_c, &g.stations[nst - 1].center()) == 0.0);
+                        let allow = if at_forged_end { 40.0 * tau } else { 4.0 * tau };
+                        l_.check("thickness gauge at the maximum equals twice the largest radius", "", (d.value().abs() - 2.0 * tm).abs() <= allow, mk, || format!("{}: {} vs {}", tag, d.value(), 2.0 * tm));
                     }
                     // gauge thicknesses
                     if g.upper.is_some() {
